@@ -242,6 +242,22 @@ def _kind_matches(svkind, tkind):
     return svkind == tkind
 
 
+class Dual:
+    """a specification clause in two logically related forms: `goal` is what has to be PROVED wherever the clause is an
+    obligation; `hyp` is what may be ASSUMED wherever it is a hypothesis.  Requirement (argued where a Dual is built):
+    goal implies the existence of an interpretation of the extra function symbols of `hyp` that makes `hyp` true (hyp is a
+    Skolemised consequence of goal).  Used for pairwise-distinctness clauses: proving them costs nothing (two Skolem
+    constants) while assuming them pairwise costs a quadratic number of instances; the assumed form is an inverse function."""
+    __slots__ = ('goal', 'hyp')
+
+    def __init__(self, goal, hyp):
+        self.goal, self.hyp = goal, hyp
+
+
+def as_hyp(f): return f.hyp if isinstance(f, Dual) else f
+def as_goal(f): return f.goal if isinstance(f, Dual) else f
+
+
 class Unsupported(Exception):
     """construct outside the verified subset: the function is demoted to the bounded stand-in, never a violation"""
 
